@@ -40,6 +40,8 @@ type Result struct {
 	Outcomes   map[string]map[string]int64 `json:"outcomes"`
 	Caps       []string                    `json:"caps"`
 	Truncated  bool                        `json:"truncated"`
+	JobsSeen   int                         `json:"jobs_seen"`  // number of Mine() draws (must agree between workers that ran to the end)
+	JobsTaken  []int                       `json:"jobs_taken"` // indices of the draws this worker took
 	HarnessErr string                      `json:"harness_err"`
 }
 
@@ -68,7 +70,12 @@ func (c *Ctx) Thorough() bool { return c.Tier == "thorough" }
 func (c *Ctx) Mine() bool {
 	i := c.job
 	c.job++
-	return i%c.NShards == c.Shard
+	c.res.JobsSeen = c.job
+	if i%c.NShards == c.Shard {
+		c.res.JobsTaken = append(c.res.JobsTaken, i)
+		return true
+	}
+	return false
 }
 
 // Expired reports whether the internal time budget is used up (the caller stops and the run is
@@ -462,6 +469,19 @@ func CoordinatorMain(prop, tier string, extra map[string]string) int {
 		merged.Truncated = merged.Truncated || r.Truncated
 	}
 
+	// sharding sanity: workers that ran to the end must have drawn the same sequence of jobs (a worker-dependent
+	// early exit from a loop that draws jobs would silently skip work)
+	maxSeen := 0
+	for _, r := range results {
+		if r != nil && r.JobsSeen > maxSeen {
+			maxSeen = r.JobsSeen
+		}
+	}
+	for i, r := range results {
+		if r != nil && !r.Truncated && len(r.Violations) == 0 && r.HarnessErr == "" && r.JobsSeen != maxSeen {
+			harness = append(harness, fmt.Sprintf("shard divergence: worker %d drew %d jobs, another drew %d (work would be skipped or duplicated)", i, r.JobsSeen, maxSeen))
+		}
+	}
 	// violations: simplest first, one per key
 	sort.SliceStable(merged.Violations, func(i, j int) bool {
 		a, b := merged.Violations[i], merged.Violations[j]
